@@ -242,13 +242,37 @@ def random_reads(ctx, n_db, n_reads):
     ctx.traces += n_db
 
 
+def repo_tests_traced(ctx):
+    """D3: the repository's own tests run with every read-style FeatureDB call bracketed by an SQL statement trace (pytest plugin vt.pytest_c19)"""
+    import subprocess
+    import sys
+    rep = ctx.path("c19_report.json")
+    cwd = ctx.path("pytest_cwd")
+    os.makedirs(cwd, exist_ok=True)
+    env = dict(os.environ, VT_C19_REPORT=rep)
+    p = subprocess.run([sys.executable, "-m", "pytest", "-q", "-p", "no:cacheprovider", "-p", "vt.pytest_c19", "--timeout=900", "--continue-on-collection-errors",
+                        os.path.join(core.REPO, "gffutils", "test")], cwd=cwd, env=env, stdout=subprocess.PIPE, stderr=subprocess.STDOUT)
+    tail = p.stdout.decode("utf-8", "replace").strip().splitlines()[-1:]
+    if not os.path.exists(rep):
+        ctx.assumptions.append("D3 (traced run of the repository's tests) produced no report: %s" % tail)
+        return
+    with open(rep) as f:
+        r = json.load(f)
+    ctx.extra["repo_tests_traced"] = {"summary": tail, "read_calls": r["calls"], "statements_during_reads": r["statements"]}
+    for v in r["violations"]:
+        ctx.violation({"repo_test_suite": True, "method": v["method"]}, "read_issued:" + v["statement"].split(None, 1)[0].upper(), {"statement": v["statement"]})
+    ctx.traces += sum(r["calls"].values())
+    ctx.count(("d3", sorted(r["calls"])), len(r["calls"]) >= 2, n=sum(r["calls"].values()))
+
+
 def run(ctx):
     thorough = ctx.tier == "thorough"
     depth = 4 if thorough else 3
     ctx.rule = ("TLC explores every history of <= %d calls over {create_db(path in 2, source in {2-feature file, 4-feature tree, empty input}, force), FeatureDB(path), "
                 "14 read-style call patterns} with action properties ReadsDontWrite, NoClobber, ForceFresh, and prints every behaviour; each is executed on real files with "
                 "an sqlite3 statement trace on the handle's connection during reads, total_changes, and the logical content (fresh connection) and sha256 of BOTH files "
-                "before/after every call. D2: random read sequences on databases built from the repository's data files. Non-trivial: an existing database at the path of a "
+                "before/after every call. D2: random read sequences on databases built from the repository's data files. D3: the repository's own tests run under a pytest plugin "
+                "that traces the statements of every read-style call. Non-trivial: an existing database at the path of a "
                 "create, or >= 2 different read methods; distinct by the behaviour.") % depth
     mc = ctx.tlc("MC_Files", MC_CFG % (depth + 1, "FALSE") + "VIEW view\n" + PROPS, expect="inv", label="all histories to depth %d" % (depth + 1))
     if not mc.ok:
@@ -279,6 +303,7 @@ def run(ctx):
     ctx.traces += len(hists)
     ctx.sample({"history": describe(hists[0])})
     random_reads(ctx, 24 if thorough else 8, 12)
+    repo_tests_traced(ctx)
     ctx.assumptions += ["'content untouched' is checked both logically (all six tables through a fresh connection) and byte-wise (sha256)",
                         "exceptions raised by a read call itself are ignored here; only its effects on the files are judged"]
 
